@@ -29,81 +29,56 @@ Qed.
 Lemma fun_bdd_term : forall s t b a, term_val s t = Some (b2c b) -> fun_bdd s (RT t) a = b.
 Proof. intros s t b a E. unfold fun_bdd. rewrite semk_T, E. destruct b; reflexivity. Qed.
 
-Lemma fun_bdd_Den : forall s r, BddOK s -> ref_ok s r -> Den s r (fun c => fun_bdd s r (fun l => Nat.eqb (c l) 0)).
-Proof.
-  intros s r B Hok. split; [exact Hok|]. intros c Hc.
-  pose proof (rlevel_le s (bo_wf s B) r).
-  destruct (semk_total s (bo_wf s B) (S (nlevels s)) r c Hok (proj2 (bchoice_ok s c B) Hc) ltac:(lia)) as [v Ev].
-  rewrite Ev. unfold fun_bdd.
-  rewrite (semk_ext s (bo_wf s B) _ r (choice_of (fun l => Nat.eqb (c l) 0)) c).
-  2:{ intros l _. unfold choice_of. specialize (Hc l). destruct (Nat.eqb_spec (c l) 0); lia. }
-  rewrite Ev. destruct (semk_code s B _ _ _ _ Ev) as [->| ->]; reflexivity.
-Qed.
-
-(** an inner node of a reduced BDD is satisfiable *)
+(** an inner node of a reduced BDD is satisfiable: one of its two distinct
+    children is not the false terminal (search along the levels) *)
 Lemma bdd_node_sat : forall s id nd, BddOK s -> find_node s id = Some nd ->
   exists a, fun_bdd s (RN id) a = true.
 Proof.
   intros s id nd B E.
   destruct (bo_false s B) as [tf Etf].
   assert (Hok : ref_ok s (RN id)) by (exists nd; exact E).
-  (* otherwise the node and the false terminal denote the same function *)
-  destruct (semk_total s (bo_wf s B)) with (f := S (nlevels s)) (r := RN id) (c := fun _ : nat => 0) as [v0 _];
-    [exact Hok | apply choice_ok_const; lia | pose proof (rlevel_le s (bo_wf s B) (RN id)); lia |].
-  assert (Hdec : (exists c, bchoice c /\ semk s (S (nlevels s)) (RN id) c = Some 1%N) \/
-                 (forall c, bchoice c -> semk s (S (nlevels s)) (RN id) c = Some 0%N)).
-  { (* classical-free: decide by canonicity against the false terminal *)
-    destruct (ref_eq_dec (RN id) (RT tf)) as [Heq|_]; [discriminate|].
-    (* enumerate: use den_canon contrapositive through an explicit search is not needed:
-       the reduced node has a child that is not the false terminal; recurse on the level *)
-    clear v0.
-    assert (Hind : forall k r, ref_ok s r -> nlevels s - rlevel s r <= k ->
-               r = RT tf \/ exists c, bchoice c /\ semk s (S (nlevels s)) r c = Some 1%N).
-    { induction k as [|k IH]; intros r Hr Hk.
-      - destruct r as [t|i].
-        + destruct Hr as [v Ev]. destruct (bo_codes s B t v Ev) as [->| ->].
-          * left. f_equal. apply (term_val_inj s t tf 0%N (bo_wf s B) Ev Etf).
-          * right. exists (fun _ => 0). split; [intros l; lia | rewrite semk_T; exact Ev].
-        + destruct Hr as [n0 E0]. pose proof (wf_level s (bo_wf s B) i n0 E0).
-          rewrite (rlevel_node s i n0 E0) in Hk. lia.
-      - destruct r as [t|i]; [apply (IH (RT t) Hr); simpl; lia|].
-        destruct Hr as [n0 E0]. rewrite (rlevel_node s i n0 E0) in Hk.
-        destruct (two_children s i n0 (bo_wf s B) (bdd_binary_k s B) E0) as [e0 [e1 Hc]].
-        assert (C0 : ref_ok s (eref e0) /\ nlevel n0 < rlevel s (eref e0))
-          by (apply (wf_child s (bo_wf s B) i n0 e0 E0); rewrite Hc; left; reflexivity).
-        assert (C1 : ref_ok s (eref e1) /\ nlevel n0 < rlevel s (eref e1))
-          by (apply (wf_child s (bo_wf s B) i n0 e1 E0); rewrite Hc; right; left; reflexivity).
-        assert (T0 : etag e0 = false)
-          by (apply (wf_tags s (bo_wf s B) ltac:(rewrite (bo_kind s B); discriminate) i n0 e0 E0); rewrite Hc; left; reflexivity).
-        assert (T1 : etag e1 = false)
-          by (apply (wf_tags s (bo_wf s B) ltac:(rewrite (bo_kind s B); discriminate) i n0 e1 E0); rewrite Hc; right; left; reflexivity).
-        right.
-        assert (Hsub : forall (j : nat) (ej : edge), nth_error (nchildren n0) j = Some ej -> j < 2 ->
-                  (exists c, bchoice c /\ semk s (S (nlevels s)) (eref ej) c = Some 1%N) ->
-                  exists c, bchoice c /\ semk s (S (nlevels s)) (RN i) c = Some 1%N).
-        { intros j ej Hj Hj2 [c [Hbc Hs]]. exists (TableProofs.upd c (nlevel n0) j). split.
-          - apply bchoice_upd; assumption.
-          - pose proof (child_sem s (bo_wf s B) i n0 j ej c E0 Hj) as Hcs.
-            unfold semn in Hcs. rewrite <- Hcs. exact Hs. }
-        destruct (IH (eref e0) (proj1 C0) ltac:(lia)) as [F0|S0].
-        + destruct (IH (eref e1) (proj1 C1) ltac:(lia)) as [F1|S1].
-          * exfalso. pose proof (wf_reduced s (bo_wf s B) i n0 E0) as Hred.
-            apply (reduced_kary s (bdd_kary s B)) in Hred. apply Hred.
-            assert (e0 = e1) by (apply edge_ext; congruence).
-            intros u w Hu Hw. rewrite Hc in Hu, Hw. simpl in Hu, Hw.
-            destruct Hu as [<-|[<-|[]]], Hw as [<-|[<-|[]]]; congruence.
-          * apply (Hsub 1 e1); [rewrite Hc; reflexivity | lia | exact S1].
-        + apply (Hsub 0 e0); [rewrite Hc; reflexivity | lia | exact S0]. }
-    destruct (Hind (nlevels s) (RN id) Hok ltac:(lia)) as [Hf|Hs]; [discriminate | left; exact Hs]. }
-  destruct Hdec as [[c [Hc Hs]]|Hall].
-  - exists (fun l => Nat.eqb (c l) 0). unfold fun_bdd.
-    rewrite (semk_ext s (bo_wf s B) _ (RN id) (choice_of (fun l => Nat.eqb (c l) 0)) c).
-    + rewrite Hs. reflexivity.
-    + intros l _. unfold choice_of. specialize (Hc l). destruct (Nat.eqb_spec (c l) 0); lia.
-  - exfalso.
-    assert (D1 : Den s (RN id) (fun _ => false)) by (split; [exact Hok | intros c Hc; apply Hall; exact Hc]).
-    assert (D2 : Den s (RT tf) (fun _ => false)) by (apply (den_term s tf false); exact Etf).
-    pose proof (den_canon s _ _ _ B D1 D2). discriminate.
+  assert (Hind : forall k r, ref_ok s r -> nlevels s - rlevel s r <= k ->
+             r = RT tf \/ exists c, bchoice c /\ semk s (S (nlevels s)) r c = Some 1%N).
+  { induction k as [|k IH]; intros r Hr Hk.
+    - destruct r as [t|i].
+      + destruct Hr as [v Ev]. destruct (bo_codes s B t v Ev) as [->| ->].
+        * left. f_equal. apply (term_val_inj s t tf 0%N (bo_wf s B) Ev Etf).
+        * right. exists (fun _ => 0). split; [intros l; lia | rewrite semk_T; exact Ev].
+      + destruct Hr as [n0 E0]. pose proof (wf_level s (bo_wf s B) i n0 E0).
+        rewrite (rlevel_node s i n0 E0) in Hk. lia.
+    - destruct r as [t|i]; [apply (IH (RT t) Hr); simpl; lia|].
+      destruct Hr as [n0 E0]. rewrite (rlevel_node s i n0 E0) in Hk.
+      destruct (two_children s i n0 (bo_wf s B) (bdd_binary_k s B) E0) as [e0 [e1 Hc]].
+      assert (C0 : ref_ok s (eref e0) /\ nlevel n0 < rlevel s (eref e0))
+        by (apply (wf_child s (bo_wf s B) i n0 e0 E0); rewrite Hc; left; reflexivity).
+      assert (C1 : ref_ok s (eref e1) /\ nlevel n0 < rlevel s (eref e1))
+        by (apply (wf_child s (bo_wf s B) i n0 e1 E0); rewrite Hc; right; left; reflexivity).
+      assert (T0 : etag e0 = false)
+        by (apply (wf_tags s (bo_wf s B) ltac:(rewrite (bo_kind s B); discriminate) i n0 e0 E0); rewrite Hc; left; reflexivity).
+      assert (T1 : etag e1 = false)
+        by (apply (wf_tags s (bo_wf s B) ltac:(rewrite (bo_kind s B); discriminate) i n0 e1 E0); rewrite Hc; right; left; reflexivity).
+      right.
+      assert (Hsub : forall (j : nat) (ej : edge), nth_error (nchildren n0) j = Some ej -> j < 2 ->
+                (exists c, bchoice c /\ semk s (S (nlevels s)) (eref ej) c = Some 1%N) ->
+                exists c, bchoice c /\ semk s (S (nlevels s)) (RN i) c = Some 1%N).
+      { intros j ej Hj Hj2 [c [Hbc Hs]]. exists (TableProofs.upd c (nlevel n0) j). split.
+        - apply bchoice_upd; assumption.
+        - pose proof (child_sem s (bo_wf s B) i n0 j ej c E0 Hj) as Hcs.
+          unfold semn in Hcs. rewrite <- Hcs. exact Hs. }
+      destruct (IH (eref e0) (proj1 C0) ltac:(lia)) as [F0|S0].
+      + destruct (IH (eref e1) (proj1 C1) ltac:(lia)) as [F1|S1].
+        * exfalso. pose proof (wf_reduced s (bo_wf s B) i n0 E0) as Hred.
+          apply (reduced_kary s (bdd_kary s B)) in Hred. apply Hred.
+          assert (e0 = e1) by (apply edge_ext; congruence).
+          intros u w Hu Hw. rewrite Hc in Hu, Hw. simpl in Hu, Hw.
+          destruct Hu as [<-|[<-|[]]], Hw as [<-|[<-|[]]]; congruence.
+        * apply (Hsub 1 e1); [rewrite Hc; reflexivity | lia | exact S1].
+      + apply (Hsub 0 e0); [rewrite Hc; reflexivity | lia | exact S0]. }
+  destruct (Hind (nlevels s) (RN id) Hok ltac:(lia)) as [Hf|[c [Hc Hs]]]; [discriminate|].
+  exists (fun l => Nat.eqb (c l) 0). unfold fun_bdd.
+  rewrite (semk_ext s (bo_wf s B) _ (RN id) (choice_of (fun l => Nat.eqb (c l) 0)) c).
+  - rewrite Hs. reflexivity.
+  - intros l _. unfold choice_of. specialize (Hc l). destruct (Nat.eqb_spec (c l) 0); lia.
 Qed.
 
 Section BddInst.
